@@ -29,6 +29,9 @@ DOCS = [
     ("surrogate", ['"\\udc80doc"']),
     ("strfirstuse", ['return "s"']),
     ("plain-O2", ['"doc"']),
+    ("empty", ['""']),
+    ("empty-used", ['""', 'x = ""']),
+    ("whitespace", ['" "']),
 ]
 FKINDS = ["def", "lambda", "asyncdef", "gen", "asyncgen", "method"]
 
